@@ -4,6 +4,7 @@
 From Coq Require Import NArith ZArith List Bool.
 Import ListNotations.
 Require Import UV.C07.Model UV.C07.Check UV.C07.Proofs UV.C07.Replay UV.C07.RecordReplay.
+Require UV.C07.RecordProof.
 Local Open Scope Z_scope.
 
 (* get_task_ustack's look-ahead list (time filter -t / time=, caller filter -C, `trace`) hands the
@@ -78,7 +79,25 @@ Theorem C07_raw_dump_time_filter_refuted :
 Proof. exact raw_dump_ignores_time_filter. Qed.
 Print Assumptions C07_raw_dump_time_filter_refuted.
 
-(* record time vs replay time: exhaustive agreement on a bounded domain inside the class rr_class_of
+(* record time = replay time, UNBOUNDED, for the filter options -F / -N / -D on the -pg shape: for every
+   forest (calls with t0 < t1 < 2^64, nesting <= 1024) libmcount (lazy ENTRY flush included) writes exactly
+   the recording of the selected forest, and replaying that without options shows the same calls, display
+   depths and times as replaying the full recording with the options. *)
+Theorem C07_record_writes_selected_forest : forall c f,
+  RecordProof.filter_only c -> RecordProof.wf_forest f -> (RecordProof.fheight f <= 1024)%nat ->
+  record (to_mcfg c MC.PG) f = flats 0 (flat_map (RecordProof.sel c false 0) f).
+Proof. exact RecordProof.record_is_sel. Qed.
+Print Assumptions C07_record_writes_selected_forest.
+
+Theorem C07_record_equals_replay : forall c f,
+  RecordProof.filter_only c -> plt_free_all c -> no_range c = true ->
+  RecordProof.wf_forest f -> (RecordProof.fheight f <= 1024)%nat ->
+  map RecordProof.strip (rec_then_plain c MC.PG f) = map RecordProof.strip (plain_then_opt c f).
+Proof. exact RecordProof.record_equals_replay_filters. Qed.
+Print Assumptions C07_record_equals_replay.
+
+(* the other shared options (-t, time=, -C, trace) and the cygprof shape: exhaustive agreement on a bounded
+   domain inside the class rr_class_of
    (no call runs exactly a threshold or zero time, no depth= / trace_on / trace_off, time= never lowers the
    threshold, -C / trace / time= only when nothing is hidden by -F/-N/-D): 21060 + 8900 compared pairs,
    both instrumentation shapes. *)
